@@ -98,10 +98,22 @@ func (ex *Exec) lookupLocal(st *State, name string) (SV, bool) {
 		return SV{}, false
 	}
 	var found *ssa.Alloc
-	for a := range st.cells {
-		if a.Comment == name {
-			if found == nil || a.Pos() < found.Pos() {
-				found = a
+	// clauses that moved with their loop into a helper speak about the helper's locals first
+	if ex.curLoop != nil && ex.curLoop.fn != ex.fn {
+		for a := range st.cells {
+			if a.Comment == name && a.Parent() == ex.curLoop.fn {
+				if found == nil || a.Pos() < found.Pos() {
+					found = a
+				}
+			}
+		}
+	}
+	if found == nil {
+		for a := range st.cells {
+			if a.Comment == name {
+				if found == nil || a.Pos() < found.Pos() {
+					found = a
+				}
 			}
 		}
 	}
